@@ -254,6 +254,14 @@ fn is_default_live_fresh(g: &Grp) -> bool {
     })
 }
 
+/// What the run loop needs from an executor (implemented per concrete vector type below).
+pub trait Stepper<K: Kind<X>, X: Item> {
+    fn start_fresh_arr(&mut self);
+    fn start_from_v(&mut self, v: K::V, model: Vec<Grp>);
+    fn step(&mut self, op: Op) -> bool;
+    fn finish(&mut self);
+}
+
 impl<'s, K: Kind<X>, X: Item> VecExec<'s, K, X> {
     pub fn new(slot: usize, st: &'s mut Stats) -> Self {
         VecExec {
@@ -288,46 +296,55 @@ impl<'s, K: Kind<X>, X: Item> VecExec<'s, K, X> {
         (items, grps)
     }
 
+}
+
+/// Everything that calls into vek is instantiated once per *concrete* vector type (X stays
+/// generic): inside these impls the consuming iterator is the concrete `vecN::IntoIter<X>`, so a
+/// method call like `it.rev()` or `it.len()` resolves exactly as it does in user code — including
+/// to an inherent method that shadows the trait method of the same name (seeded change S34).
+macro_rules! vec_exec_impl {
+    ($K:ty) => {
+impl<'s, X: Item> VecExec<'s, $K, X> {
     pub fn start_fresh_arr(&mut self) {
         let (items, grps) = Self::fresh_items_u(OWN_MAIN, self.uniform);
-        self.st.elements_created += (K::N * X::W) as u64;
+        self.st.elements_created += (<$K as Kind<X>>::N * X::W) as u64;
         self.model = grps;
-        self.form = Form::Arr(K::arr_from_vec(items));
+        self.form = Form::Arr(<$K as Kind<X>>::arr_from_vec(items));
     }
 
     /// Start from an already built vector value (used by the matrix executor for `rows`/`cols`).
-    pub fn start_from_v(&mut self, v: K::V, model: Vec<Grp>) {
+    pub fn start_from_v(&mut self, v: <$K as Kind<X>>::V, model: Vec<Grp>) {
         self.model = model;
         self.form = Form::V(v);
         self.check_form("handover");
     }
 
     fn cur_state(&self) -> (usize, usize) {
-        (self.front, K::N - self.back)
+        (self.front, <$K as Kind<X>>::N - self.back)
     }
 
     // ---------------------------------------------------------------- read-back checks
 
     /// Compare the current Arr / Tup / V content, read through plain field access, with the model (V5).
     fn check_form(&mut self, after: &str) {
-        let n = K::N;
+        let n = <$K as Kind<X>>::N;
         if self.model.len() != n {
             if !matches!(self.form, Form::It(_) | Form::Gone) {
-                tok::raise(V5_ORDER, format!("harness: model length {} for {}", self.model.len(), K::NAME));
+                tok::raise(V5_ORDER, format!("harness: model length {} for {}", self.model.len(), <$K as Kind<X>>::NAME));
             }
             return;
         }
         for i in 0..n {
             let got = match &self.form {
-                Form::Arr(a) => K::arr_get(a, i).grp(),
-                Form::Tup(t) => K::tup_get(t, i).grp(),
-                Form::V(v) => K::v_field(v, i).grp(),
+                Form::Arr(a) => <$K as Kind<X>>::arr_get(a, i).grp(),
+                Form::Tup(t) => <$K as Kind<X>>::tup_get(t, i).grp(),
+                Form::V(v) => <$K as Kind<X>>::v_field(v, i).grp(),
                 _ => return,
             };
             if got != self.model[i] {
                 tok::raise(
                     V5_ORDER,
-                    format!("after {}: position {} of {} holds ids {:?}, model says {:?}", after, i, K::NAME, &got.ids[..got.n as usize], &self.model[i].ids[..self.model[i].n as usize]),
+                    format!("after {}: position {} of {} holds ids {:?}, model says {:?}", after, i, <$K as Kind<X>>::NAME, &got.ids[..got.n as usize], &self.model[i].ids[..self.model[i].n as usize]),
                 );
                 return;
             }
@@ -504,7 +521,7 @@ impl<'s, K: Kind<X>, X: Item> VecExec<'s, K, X> {
             self.st.fault_cfg[F_CANCEL] += 1;
             self.st.fault_fired[F_CANCEL] += 1;
             let live = grps.len();
-            if live == K::N {
+            if live == <$K as Kind<X>>::N {
                 self.st.probes[P_CANCEL_ALL_LIVE] += 1;
             }
             if live == 1 {
@@ -624,11 +641,11 @@ impl<'s, K: Kind<X>, X: Item> VecExec<'s, K, X> {
     /// Shared post-condition of `from_iter`-like operations that completed normally:
     /// positions < seq.len() hold `seq` in order, the rest hold fresh defaults, and every other
     /// default created by this operation is gone.
-    fn settle_from_iter(&mut self, v: K::V, seq: &[Grp], what: &str) {
-        let n = K::N;
+    fn settle_from_iter(&mut self, v: <$K as Kind<X>>::V, seq: &[Grp], what: &str) {
+        let n = <$K as Kind<X>>::N;
         let mut model = Vec::with_capacity(n);
         for i in 0..n {
-            let got = K::v_field(&v, i).grp();
+            let got = <$K as Kind<X>>::v_field(&v, i).grp();
             if i < seq.len() {
                 if got != seq[i] {
                     tok::raise(V5_ORDER, format!("{}: position {} holds ids {:?}, source order says {:?}", what, i, &got.ids[..got.n as usize], &seq[i].ids[..seq[i].n as usize]));
@@ -693,7 +710,7 @@ impl<'s, K: Kind<X>, X: Item> VecExec<'s, K, X> {
     /// Returns false when the operation's precondition did not hold (skipped).
     pub fn step(&mut self, op: Op) -> bool {
         use OpK::*;
-        let n = K::N;
+        let n = <$K as Kind<X>>::N;
         match op.k {
             // ------------------------------------------------------------ form changes
             ArrToV | VNew => {
@@ -706,7 +723,7 @@ impl<'s, K: Kind<X>, X: Item> VecExec<'s, K, X> {
                 };
                 let what = if op.k == ArrToV { "V::from([T; N])" } else { "V::new(..)" };
                 let isnew = op.k == VNew;
-                if let Some(v) = guard_nopanic(what, 0, 0, move || if isnew { K::v_new(a) } else { K::v_from_arr(a) }) {
+                if let Some(v) = guard_nopanic(what, 0, 0, move || if isnew { <$K as Kind<X>>::v_new(a) } else { <$K as Kind<X>>::v_from_arr(a) }) {
                     self.form = Form::V(v);
                     self.chain += 1;
                     self.check_form(what);
@@ -721,7 +738,7 @@ impl<'s, K: Kind<X>, X: Item> VecExec<'s, K, X> {
                         return false;
                     }
                 };
-                if let Some(v) = guard_nopanic("V::from(tuple)", 0, 0, move || K::v_from_tup(t)) {
+                if let Some(v) = guard_nopanic("V::from(tuple)", 0, 0, move || <$K as Kind<X>>::v_from_tup(t)) {
                     self.form = Form::V(v);
                     self.chain += 1;
                     self.check_form("V::from(tuple)");
@@ -737,11 +754,11 @@ impl<'s, K: Kind<X>, X: Item> VecExec<'s, K, X> {
                     }
                 };
                 if op.k == VToArr {
-                    if let Some(a) = guard_nopanic("into_array", 0, 0, move || K::v_into_arr(v)) {
+                    if let Some(a) = guard_nopanic("into_array", 0, 0, move || <$K as Kind<X>>::v_into_arr(v)) {
                         self.form = Form::Arr(a);
                         self.check_form("into_array");
                     }
-                } else if let Some(t) = guard_nopanic("into_tuple", 0, 0, move || K::v_into_tup(v)) {
+                } else if let Some(t) = guard_nopanic("into_tuple", 0, 0, move || <$K as Kind<X>>::v_into_tup(v)) {
                     self.form = Form::Tup(t);
                     self.check_form("into_tuple");
                 }
@@ -750,7 +767,7 @@ impl<'s, K: Kind<X>, X: Item> VecExec<'s, K, X> {
             }
             ArrToTup => {
                 match std::mem::replace(&mut self.form, Form::Gone) {
-                    Form::Arr(a) => self.form = Form::Tup(K::tup_from_arr(a)),
+                    Form::Arr(a) => self.form = Form::Tup(<$K as Kind<X>>::tup_from_arr(a)),
                     other => {
                         self.form = other;
                         return false;
@@ -760,7 +777,7 @@ impl<'s, K: Kind<X>, X: Item> VecExec<'s, K, X> {
             }
             TupToArr => {
                 match std::mem::replace(&mut self.form, Form::Gone) {
-                    Form::Tup(t) => self.form = Form::Arr(K::arr_from_tup(t)),
+                    Form::Tup(t) => self.form = Form::Arr(<$K as Kind<X>>::arr_from_tup(t)),
                     other => {
                         self.form = other;
                         return false;
@@ -778,7 +795,7 @@ impl<'s, K: Kind<X>, X: Item> VecExec<'s, K, X> {
                 };
                 // harness plumbing: [X; N] -> VecDeque<X> through std's by-value array iterator
                 let mut items: VecDeque<X> = VecDeque::with_capacity(n + 4);
-                K::arr_drain(a, &mut items);
+                <$K as Kind<X>>::arr_drain(a, &mut items);
                 let src_model: Vec<Grp> = std::mem::take(&mut self.model);
                 let mode = op.a % 5;
                 let j = (op.b & 0xff) as usize;
@@ -836,7 +853,7 @@ impl<'s, K: Kind<X>, X: Item> VecExec<'s, K, X> {
                 let allow = m(OWN_FRESH) | m(OWN_DOOMED) | if relaxed { m(OWN_MAIN) } else { 0 };
                 let (r, fired) = {
                     let src = StubSource { buf: items, sink: &mut sink, pulled: &mut pulled, eof_after, panic_at, hint, cap: n, calls: 0, gap_at, gap_done: false, polled_after_end: &mut polled_after_end };
-                    guard(allow, 0, plan_of(Cb::Default, op.f), move || K::v_from_iter(src))
+                    guard(allow, 0, plan_of(Cb::Default, op.f), move || <$K as Kind<X>>::v_from_iter(src))
                 };
                 self.leftovers.append(&mut sink);
                 let _ = src_model;
@@ -890,7 +907,7 @@ impl<'s, K: Kind<X>, X: Item> VecExec<'s, K, X> {
                 if op.f > 0 {
                     self.st.fault_cfg[F_DEFAULT_PANIC] += 1;
                 }
-                let (r, fired) = guard(m(OWN_FRESH), 0, plan_of(Cb::Default, op.f), || K::v_default());
+                let (r, fired) = guard(m(OWN_FRESH), 0, plan_of(Cb::Default, op.f), || <$K as Kind<X>>::v_default());
                 match r {
                     Ok(v) => self.settle_from_iter(v, &[], "V::default()"),
                     Err(Thrown::Injected) if fired => {
@@ -910,7 +927,7 @@ impl<'s, K: Kind<X>, X: Item> VecExec<'s, K, X> {
                         return false;
                     }
                 };
-                if let Some(it) = guard_nopanic("into_iter", 0, 0, move || K::v_into_iter(v)) {
+                if let Some(it) = guard_nopanic("into_iter", 0, 0, move || <$K as Kind<X>>::v_into_iter(v)) {
                     self.form = Form::It(it);
                     self.dq = self.model.drain(..).collect();
                     self.front = 0;
@@ -932,13 +949,13 @@ impl<'s, K: Kind<X>, X: Item> VecExec<'s, K, X> {
                 let via = (op.a % N_VIA as u32) as u8;
                 let model = &self.model;
                 let _ = guard_nopanic(via_name(via, false), 0, 0, || {
-                    let s = K::v_slice(v, via);
+                    let s = <$K as Kind<X>>::v_slice(v, via);
                     if s.len() != n {
-                        tok::raise(V9_ALIAS, format!("{} has length {} on a {}-element {}", via_name(via, false), s.len(), n, K::NAME));
+                        tok::raise(V9_ALIAS, format!("{} has length {} on a {}-element {}", via_name(via, false), s.len(), n, <$K as Kind<X>>::NAME));
                         return;
                     }
                     for i in 0..n {
-                        if s.as_ptr().wrapping_add(i) != K::v_field(v, i) as *const X {
+                        if s.as_ptr().wrapping_add(i) != <$K as Kind<X>>::v_field(v, i) as *const X {
                             tok::raise(V9_ALIAS, format!("{}: entry {} does not alias field {} of the value", via_name(via, false), i, i));
                             return;
                         }
@@ -960,7 +977,7 @@ impl<'s, K: Kind<X>, X: Item> VecExec<'s, K, X> {
                 let via = (op.a % N_VIA as u32) as u8;
                 let i = (op.b & 0xff) as usize % n;
                 let j = ((op.b >> 8) & 0xff) as usize % n;
-                let fields: Vec<*const X> = (0..n).map(|q| K::v_field(v, q) as *const X).collect();
+                let fields: Vec<*const X> = (0..n).map(|q| <$K as Kind<X>>::v_field(v, q) as *const X).collect();
                 let replace = op.k == SliceReplace;
                 let newx = if replace {
                     self.st.elements_created += X::W as u64;
@@ -973,9 +990,9 @@ impl<'s, K: Kind<X>, X: Item> VecExec<'s, K, X> {
                 let newg = newx.as_ref().map(|x| x.grp());
                 let mut spare = newx;
                 let _ = guard_nopanic(via_name(via, true), m(OWN_DOOMED), 0, || {
-                    let s = K::v_slice_mut(v, via);
+                    let s = <$K as Kind<X>>::v_slice_mut(v, via);
                     if s.len() != n {
-                        tok::raise(V9_ALIAS, format!("{} has length {} on a {}-element {}", via_name(via, true), s.len(), n, K::NAME));
+                        tok::raise(V9_ALIAS, format!("{} has length {} on a {}-element {}", via_name(via, true), s.len(), n, <$K as Kind<X>>::NAME));
                         return;
                     }
                     for q in 0..n {
@@ -1020,16 +1037,16 @@ impl<'s, K: Kind<X>, X: Item> VecExec<'s, K, X> {
                 }
                 let (r, fired) = guard(0, m(OWN_MAIN), plan_of(Cb::Observe, op.f), || match kind {
                     0 => {
-                        K::v_observe_debug(v);
+                        <$K as Kind<X>>::v_observe_debug(v);
                     }
                     1 => {
-                        K::v_observe_hash(v);
+                        <$K as Kind<X>>::v_observe_hash(v);
                     }
                     2 => {
-                        K::v_observe_eq(v, v);
+                        <$K as Kind<X>>::v_observe_eq(v, v);
                     }
                     _ => {
-                        K::v_observe_display(v);
+                        <$K as Kind<X>>::v_observe_display(v);
                     }
                 });
                 if fired {
@@ -1065,7 +1082,7 @@ impl<'s, K: Kind<X>, X: Item> VecExec<'s, K, X> {
                 let (w, wg) = if mode > 0 {
                     let (items, grps) = Self::fresh_items(OWN_DOOMED);
                     self.st.elements_created += (n * X::W) as u64;
-                    (Some(K::v_from_arr(K::arr_from_vec(items))), grps)
+                    (Some(<$K as Kind<X>>::v_from_arr(<$K as Kind<X>>::arr_from_vec(items))), grps)
                 } else {
                     (None, Vec::new())
                 };
@@ -1092,16 +1109,16 @@ impl<'s, K: Kind<X>, X: Item> VecExec<'s, K, X> {
                             }
                         };
                         match mode {
-                            0 => K::v_map(v, |x| {
+                            0 => <$K as Kind<X>>::v_map(v, |x| {
                                 hit(&x);
                                 x
                             }),
-                            1 => K::v_zip_map(v, w.unwrap(), |x, y| {
+                            1 => <$K as Kind<X>>::v_zip_map(v, w.unwrap(), |x, y| {
                                 hit(&x);
                                 drop(y);
                                 x
                             }),
-                            _ => K::v_map2(v, w.unwrap(), |x, y| {
+                            _ => <$K as Kind<X>>::v_map2(v, w.unwrap(), |x, y| {
                                 hit(&x);
                                 drop(y);
                                 x
@@ -1150,14 +1167,14 @@ impl<'s, K: Kind<X>, X: Item> VecExec<'s, K, X> {
                 }
                 // clone() touches the originals and creates fresh elements; if an element's clone
                 // panics, the fresh ones made so far are destroyed by the unwinding
-                let (r, fired) = guard(m(OWN_FRESH), m(OWN_MAIN), plan_of(Cb::Observe, op.f), || K::v_clone(v));
+                let (r, fired) = guard(m(OWN_FRESH), m(OWN_MAIN), plan_of(Cb::Observe, op.f), || <$K as Kind<X>>::v_clone(v));
                 let fresh = tok::fresh_in_op();
                 match r {
                     Ok(c) => {
                         let mut ok = fresh.len() == n * X::W;
                         let mut k = 0usize;
                         for i in 0..n {
-                            let g = K::v_field(&c, i).grp();
+                            let g = <$K as Kind<X>>::v_field(&c, i).grp();
                             for (j, id) in g.iter().enumerate() {
                                 let src = self.model[i].ids[j];
                                 if fresh.get(k) .is_none() || !fresh.contains(&id) || tok::origin_of(id) != Some(Origin::Clone) || tok::val_of(id) != tok::val_of(src) {
@@ -1167,7 +1184,7 @@ impl<'s, K: Kind<X>, X: Item> VecExec<'s, K, X> {
                             }
                         }
                         if !ok {
-                            tok::raise(V5_ORDER, format!("clone of a {}: the copy does not consist of one fresh clone per element, in order ({} fresh elements)", K::NAME, fresh.len()));
+                            tok::raise(V5_ORDER, format!("clone of a {}: the copy does not consist of one fresh clone per element, in order ({} fresh elements)", <$K as Kind<X>>::NAME, fresh.len()));
                             std::mem::forget(c);
                             return true;
                         }
@@ -1177,7 +1194,7 @@ impl<'s, K: Kind<X>, X: Item> VecExec<'s, K, X> {
                         let _ = guard_nopanic("drop of the cloned container", m(OWN_CLONE), 0, move || drop(c));
                         for id in &fresh {
                             if !tok::gone(*id) {
-                                tok::raise(V7_LEAK, format!("drop of a cloned {}: id {} was not dropped", K::NAME, id));
+                                tok::raise(V7_LEAK, format!("drop of a cloned {}: id {} was not dropped", <$K as Kind<X>>::NAME, id));
                                 return true;
                             }
                         }
@@ -1187,7 +1204,7 @@ impl<'s, K: Kind<X>, X: Item> VecExec<'s, K, X> {
                         self.st.probes[P_CLONE_PANIC_FIRED] += 1;
                         for id in &fresh {
                             if !tok::gone(*id) {
-                                tok::raise(V7_LEAK, format!("clone of a {} unwound: fresh element id {} leaked", K::NAME, id));
+                                tok::raise(V7_LEAK, format!("clone of a {} unwound: fresh element id {} leaked", <$K as Kind<X>>::NAME, id));
                                 return true;
                             }
                         }
@@ -1200,12 +1217,12 @@ impl<'s, K: Kind<X>, X: Item> VecExec<'s, K, X> {
             VFromSlice => {
                 let j = op.a as usize % (n + 3);
                 let src: Vec<u32> = (0..j as u32).map(|i| 1000 + i).collect();
-                if let Some(out) = guard_nopanic("from_slice", 0, 0, || K::from_slice_u32(&src)) {
+                if let Some(out) = guard_nopanic("from_slice", 0, 0, || <$K as Kind<X>>::from_slice_u32(&src)) {
                     self.st.probes[P_FROM_SLICE] += 1;
                     for i in 0..n {
                         let want = if i < j { src[i] } else { C32_DEFAULT };
                         if out.get(i).copied() != Some(want) {
-                            tok::raise(V5_ORDER, format!("from_slice of {} elements into {}: position {} holds {:?}, expected {} ({})", j, K::NAME, i, out.get(i), want, if i < j { "the slice's element" } else { "T::default()" }));
+                            tok::raise(V5_ORDER, format!("from_slice of {} elements into {}: position {} holds {:?}, expected {} ({})", j, <$K as Kind<X>>::NAME, i, out.get(i), want, if i < j { "the slice's element" } else { "T::default()" }));
                             break;
                         }
                     }
@@ -1519,7 +1536,7 @@ impl<'s, K: Kind<X>, X: Item> VecExec<'s, K, X> {
                 }
                 let (items, grps) = Self::fresh_items_u(OWN_TWIN, self.uniform);
                 self.st.elements_created += (n * X::W) as u64;
-                let made = guard_nopanic("twin construction", 0, 0, move || K::v_into_iter(K::v_from_arr(K::arr_from_vec(items))));
+                let made = guard_nopanic("twin construction", 0, 0, move || <$K as Kind<X>>::v_into_iter(<$K as Kind<X>>::v_from_arr(<$K as Kind<X>>::arr_from_vec(items))));
                 let mut t = match made {
                     Some(t) => t,
                     None => return true,
@@ -1556,7 +1573,7 @@ impl<'s, K: Kind<X>, X: Item> VecExec<'s, K, X> {
                 if op.a % 8 == 3 {
                     // Default probe: an iterator made by `Default` owns whatever it created; every
                     // such element must be yielded or destroyed like any other
-                    let (r, _) = guard(0, 0, None, || crate::probe::try_default_iter::<K::It>());
+                    let (r, _) = guard(0, 0, None, || crate::probe::try_default_iter::<<$K as Kind<X>>::It>());
                     match r {
                         Ok(None) => {}
                         Ok(Some(mut d)) => {
@@ -1604,7 +1621,7 @@ impl<'s, K: Kind<X>, X: Item> VecExec<'s, K, X> {
                         Form::It(it) => it,
                         _ => return false,
                     };
-                    let (r, _) = guard(0, 0, None, || crate::probe::try_asmut_iter::<K::It>(it));
+                    let (r, _) = guard(0, 0, None, || crate::probe::try_asmut_iter::<<$K as Kind<X>>::It>(it));
                     match r {
                         Ok(None) => {}
                         Ok(Some(pairs)) => {
@@ -1635,7 +1652,7 @@ impl<'s, K: Kind<X>, X: Item> VecExec<'s, K, X> {
                     // fall through to the clone probe below
                 } else if sel == 1 {
                     // ordering probe: comparing the iterator with itself may only touch live elements
-                    let (r, _) = guard(0, m(OWN_MAIN), None, || crate::probe::try_cmp_iter::<K::It>(it));
+                    let (r, _) = guard(0, m(OWN_MAIN), None, || crate::probe::try_cmp_iter::<<$K as Kind<X>>::It>(it));
                     match r {
                         Ok(None) => {}
                         Ok(Some(_)) => self.st.probes[P_ORD_PROBE_ACTIVE] += 1,
@@ -1648,9 +1665,9 @@ impl<'s, K: Kind<X>, X: Item> VecExec<'s, K, X> {
                     // slice-view probe: an `AsRef<[T]>` view of the iterator must show exactly the
                     // remaining elements, in order
                     let (r, _) = guard(0, 0, None, || match sel {
-                        2 => crate::probe::try_slice_iter::<K::It>(it),
-                        5 => crate::probe::try_view_iter::<K::It>(it, 1),
-                        _ => crate::probe::try_view_iter::<K::It>(it, 2),
+                        2 => crate::probe::try_slice_iter::<<$K as Kind<X>>::It>(it),
+                        5 => crate::probe::try_view_iter::<<$K as Kind<X>>::It>(it, 1),
+                        _ => crate::probe::try_view_iter::<<$K as Kind<X>>::It>(it, 2),
                     });
                     match r {
                         Ok(None) => {}
@@ -1675,7 +1692,7 @@ impl<'s, K: Kind<X>, X: Item> VecExec<'s, K, X> {
                     }
                     return true;
                 }
-                let cloned = guard(0, m(OWN_MAIN), None, || crate::probe::try_clone_iter::<K::It>(it));
+                let cloned = guard(0, m(OWN_MAIN), None, || crate::probe::try_clone_iter::<<$K as Kind<X>>::It>(it));
                 match cloned.0 {
                     Ok(None) => {}
                     Ok(Some(c)) => {
@@ -1733,9 +1750,9 @@ impl<'s, K: Kind<X>, X: Item> VecExec<'s, K, X> {
                 let relaxed = op.f > 0;
                 let allow = m(OWN_FRESH) | m(OWN_DOOMED) | if relaxed { m(OWN_MAIN) } else { 0 };
                 let (r, fired) = guard(allow, 0, plan_of(Cb::Default, op.f), move || match mode {
-                    0 => K::v_from_iter(it),
-                    1 => K::v_from_iter(it.rev()),
-                    _ => K::v_from_iter(it.skip(k)),
+                    0 => <$K as Kind<X>>::v_from_iter(it),
+                    1 => <$K as Kind<X>>::v_from_iter(it.rev()),
+                    _ => <$K as Kind<X>>::v_from_iter(it.skip(k)),
                 });
                 match r {
                     Ok(v) => {
@@ -2119,7 +2136,7 @@ impl<'s, K: Kind<X>, X: Item> VecExec<'s, K, X> {
 
     /// One std-provided method on `it.by_ref()` (the iterator survives): see `ops::ADAPT_NAMES`.
     fn adapt(&mut self, op: Op) -> bool {
-        let n = K::N;
+        let n = <$K as Kind<X>>::N;
         if !matches!(self.form, Form::It(_)) {
             return false;
         }
@@ -2457,3 +2474,34 @@ impl<'s, K: Kind<X>, X: Item> VecExec<'s, K, X> {
         }
     }
 }
+
+        impl<'s, X: Item> Stepper<$K, X> for VecExec<'s, $K, X> {
+            fn start_fresh_arr(&mut self) {
+                VecExec::<'s, $K, X>::start_fresh_arr(self)
+            }
+            fn start_from_v(&mut self, v: <$K as Kind<X>>::V, model: Vec<Grp>) {
+                VecExec::<'s, $K, X>::start_from_v(self, v, model)
+            }
+            fn step(&mut self, op: Op) -> bool {
+                VecExec::<'s, $K, X>::step(self, op)
+            }
+            fn finish(&mut self) {
+                VecExec::<'s, $K, X>::finish(self)
+            }
+        }
+    };
+}
+
+vec_exec_impl!(KVec2);
+vec_exec_impl!(KVec3);
+vec_exec_impl!(KVec4);
+vec_exec_impl!(KVec8);
+vec_exec_impl!(KVec16);
+vec_exec_impl!(KVec32);
+vec_exec_impl!(KVec64);
+vec_exec_impl!(KExtent2);
+vec_exec_impl!(KExtent3);
+vec_exec_impl!(KRgb);
+vec_exec_impl!(KRgba);
+vec_exec_impl!(KUv);
+vec_exec_impl!(KUvw);
